@@ -129,20 +129,22 @@ Section Req.
     match filter (fun d => key_eqb k (fst d)) M with d :: _ => d | [] => (k, 0%N) end.
 
   Lemma drop_ff_spec : forall cur n M, pos req cur = Some n -> inc n M ->
-    let M1 := drop_ff lt cur M in
-    inc n M1
-    /\ (forall k, pos req k <> None -> filter (fun d => key_eqb k (fst d)) M = filter (fun d => key_eqb k (fst d)) M1)
-    /\ match M1 with [] => True | d :: _ => exists p, pos req (fst d) = Some p /\ n <= p end.
+    inc n (drop_ff lt cur M)
+    /\ (forall k, pos req k <> None ->
+          filter (fun d => key_eqb k (fst d)) M = filter (fun d => key_eqb k (fst d)) (drop_ff lt cur M))
+    /\ match drop_ff lt cur M with [] => True | d :: _ => exists p, pos req (fst d) = Some p /\ n <= p end.
   Proof.
     intros cur n M Hc. induction M as [|d M IH]; simpl; intros HI.
     - repeat split; auto.
-    - pose proof HI as HI'. apply inc_cons in HI. unfold less at 1. rewrite Hc.
-      destruct (pos req (fst d)) as [p|] eqn:Pd.
-      + destruct HI as [Q HI]. replace (p <? n) with false by (symmetry; apply Nat.ltb_ge; lia).
-        split; [exact HI'|]. split; [auto|]. exists p; auto.
+    - pose proof HI as HI'. apply inc_cons in HI.
+      destruct (less req (fst d) cur) eqn:L; unfold less in L; rewrite Hc in L;
+        destruct (pos req (fst d)) as [p|] eqn:Pd.
+      + destruct HI as [Q HI]. apply Nat.ltb_lt in L. lia.
       + destruct (IH HI) as [A [B C]]. split; [exact A|]. split; [|exact C].
         intros k Hk. destruct (key_eqb k (fst d)) eqn:K; [|apply B; auto].
         apply key_eqb_eq in K. subst k. congruence.
+      + destruct HI as [Q HI]. split; [exact HI'|]. split; [auto|]. exists p; auto.
+      + discriminate.
   Qed.
 
   Lemma align_complete : forall R P M, req = P ++ R -> NoDup req -> inc (length P) M ->
@@ -178,9 +180,8 @@ Section Req.
         f_equal.
         * unfold pick. rewrite (B cur Hcur).
           destruct (filter (fun x => key_eqb cur (fst x)) (d :: M2)) as [|x F] eqn:Fx; auto.
-          assert (Hx : In x (d :: M2) /\ key_eqb cur (fst x) = true).
-          { apply filter_In. rewrite Fx. simpl; auto. }
-          destruct Hx as [Hx1 Hx2]. apply key_eqb_eq in Hx2.
+          assert (Hx : In x (filter (fun x0 => key_eqb cur (fst x0)) (d :: M2))) by (rewrite Fx; simpl; auto).
+          apply filter_In in Hx. destruct Hx as [Hx1 Hx2]. apply key_eqb_eq in Hx2.
           assert (Px : pos req (fst x) = Some (length P)) by (rewrite <- Hx2; exact Hc).
           pose proof (inc_lower _ _ _ _ HI2 Hx1 Px). lia.
         * rewrite (IH (P ++ [cur]) (d :: M2) E' ND) by (rewrite L'; exact HI2).
@@ -195,8 +196,8 @@ Section Req.
     - apply key_eqb_eq in K. subst k. destruct (pos req (fst d)) as [p|] eqn:Pd; [|congruence].
       destruct HI as [_ HI]. simpl.
       destruct (filter (fun x => key_eqb (fst d) (fst x)) M) as [|x F] eqn:Fx; simpl; [lia|].
-      assert (Hx : In x M /\ key_eqb (fst d) (fst x) = true) by (apply filter_In; rewrite Fx; simpl; auto).
-      destruct Hx as [Hx1 Hx2]. apply key_eqb_eq in Hx2. rewrite Hx2 in Pd.
+      assert (Hx : In x (filter (fun x0 => key_eqb (fst d) (fst x0)) M)) by (rewrite Fx; simpl; auto).
+      apply filter_In in Hx. destruct Hx as [Hx1 Hx2]. apply key_eqb_eq in Hx2. rewrite Hx2 in Pd.
       pose proof (inc_lower _ _ _ _ HI Hx1 Pd). lia.
     - destruct (pos req (fst d)); [destruct HI as [_ HI]|]; eapply IH; eauto.
   Qed.
@@ -210,16 +211,72 @@ Proof.
   - eapply perm_trans; eauto.
 Qed.
 
+Lemma id_eqb_sym : forall a b, id_eqb a b = id_eqb b a.
+Proof. intros a b; unfold id_eqb. now rewrite (N.eqb_sym (fst a)), (N.eqb_sym (snd a)). Qed.
+Lemma key_eqb_alt : forall k i s, key_eqb k (i, s) = id_eqb i (fst k) && (s =? snd k).
+Proof. intros k i s; unfold key_eqb; simpl. now rewrite id_eqb_sym, Nat.eqb_sym. Qed.
+
+Lemma delivered_one : forall (s : src) (ds : list sdoc) (k : ids),
+  (if s =? snd k then flat_map (fun d : sdoc => if id_eqb (fst d) (fst k) then [snd d] else []) ds else [])
+  = map snd (filter (fun d : doc => key_eqb k (fst d)) (attach (s, ds))).
+Proof.
+  intros s ds k; induction ds as [|[i t] ds IH].
+  - unfold attach; simpl. destruct (s =? snd k); reflexivity.
+  - change (attach (s, (i, t) :: ds)) with (((i, s), t) :: attach (s, ds)).
+    cbn [filter]. change (fst ((i, s), t)) with (i, s). rewrite key_eqb_alt.
+    cbn [flat_map fst snd].
+    destruct (s =? snd k) eqn:S; destruct (id_eqb i (fst k)) eqn:I; cbn [andb map app snd];
+      first [exact IH | f_equal; exact IH].
+Qed.
+
 Lemma delivered_filter : forall streams k,
   delivered streams k = map snd (filter (fun d => key_eqb k (fst d)) (concat (map attach streams))).
 Proof.
-  induction streams as [|[s ds] streams IH]; intros k; simpl; auto.
-  rewrite filter_app, map_app, <- IH. f_equal. unfold attach; simpl.
-  induction ds as [|[i t] ds IHd]; simpl.
-  - destruct (s =? snd k); reflexivity.
-  - unfold key_eqb at 1; simpl. rewrite (Nat.eqb_sym (snd k) s), (andb_comm _ (s =? snd k)).
-    destruct (s =? snd k) eqn:S; simpl.
-    + rewrite S in IHd. rewrite (eq_sym (id_eqb_sym_helper i (fst k))).
-      destruct (id_eqb i (fst k)); simpl; rewrite IHd; reflexivity.
-    + rewrite S in IHd. exact IHd.
+  induction streams as [|[s ds] streams IH]; intros k; [reflexivity|].
+  cbn [map concat]. rewrite filter_app, map_app, <- IH, <- delivered_one. reflexivity.
+Qed.
+
+Lemma pairwise_attach : forall req streams, nodup_nat (map fst streams) = true ->
+  pairwise (map attach streams).
+Proof.
+  intros req; induction streams as [|st streams IH]; simpl; intros H; auto.
+  apply andb_true_iff in H. destruct H as [A B]. split; auto.
+  intros t Ht a b Ha Hb. apply in_map_iff in Ht. destruct Ht as [st' [<- Hst']].
+  unfold attach in Ha, Hb. apply in_map_iff in Ha, Hb.
+  destruct Ha as [x [<- _]]. destruct Hb as [y [<- _]]. simpl.
+  intros E. assert (In (fst st) (map fst streams)) by (rewrite E; apply in_map; auto).
+  apply memb_nat_In in H. rewrite H in A. discriminate.
+Qed.
+
+Lemma doc_list_eqb_refl : forall l, list_eqb doc_eqb l l = true.
+Proof.
+  induction l as [|d l IH]; simpl; auto. rewrite IH, andb_true_r.
+  unfold doc_eqb. now rewrite key_eqb_refl, N.eqb_refl.
+Qed.
+
+Lemma fetch_complete : forall req streams, well_behaved req streams = true ->
+  docs_complete req streams (fetch req streams) = true.
+Proof.
+  intros req streams H. unfold well_behaved in H. rewrite !andb_true_iff in H.
+  destruct H as [[H1 H2] H3]. pose proof (nodup_keys_NoDup _ H1) as ND.
+  set (M := nmerge (less req) (map attach streams)).
+  assert (HM : inc req 0 M).
+  { apply nmerge_inc.
+    - intros s Hs. apply in_map_iff in Hs. destruct Hs as [st [<- Hst]].
+      rewrite forallb_forall in H3. apply (H3 _ Hst).
+    - now apply pairwise_attach. }
+  unfold docs_complete, fetch. fold M.
+  rewrite (align_complete req req [] M eq_refl ND HM).
+  replace (map (pick M) req) with (map (expected_doc streams) req); [apply doc_list_eqb_refl|].
+  apply map_ext_in. intros k Hk.
+  assert (Pk : pos req k <> None) by (apply pos_from_in; exact Hk).
+  pose proof (filter_key_le1 req k M 0 Pk HM) as L1.
+  pose proof (Permutation_filter' (fun d : doc => key_eqb k (fst d)) _ _ (nmerge_perm (less req) (map attach streams))) as PF.
+  fold M in PF. unfold expected_doc, pick. rewrite delivered_filter.
+  destruct (filter (fun d : doc => key_eqb k (fst d)) M) as [|d [|e F]] eqn:EF.
+  - apply Permutation_sym, Permutation_nil in PF. rewrite PF. reflexivity.
+  - apply Permutation_sym, Permutation_length_1_inv in PF. rewrite PF. simpl.
+    assert (Hd : In d (filter (fun d : doc => key_eqb k (fst d)) M)) by (rewrite EF; simpl; auto).
+    apply filter_In in Hd. destruct Hd as [_ Hd]. apply key_eqb_eq in Hd. subst k. destruct d; reflexivity.
+  - simpl in L1. lia.
 Qed.
